@@ -16,6 +16,9 @@ Two halves, both executable:
   trigraphs), `cppIntLit` (decimal/octal/hex/binary, suffixes, the type a bare literal has under
   LP64), `cppFloatLit` (the exact decimal value `mant · 10^exp` and the type).
 
+Also the way of a constant through a conditional expression (`Carrier`, `columnPaths`: mirror of
+`visit_IfExp` + `statement.set_var` + the column declaration).
+
 Strings are lists of Unicode scalar values (`Str`); the `String` wrappers are at the end.
 No Mathlib/Batteries import.
 -/
@@ -138,6 +141,51 @@ def renderConst : PyConst → Except RErr (Str × CTy)
   | .float _ _ => .error .nonFinite
   | .bool b => .ok (if b then "true".toList else "false".toList, .bool)
   | .other t => .error (.unsupported t)
+
+/-! ### a constant that reaches the output through a temporary (conditional expressions)
+
+`visit_IfExp` declares `double if_else_resultN;` and assigns each arm to it with `set_var`, which
+writes `static_cast<double>(arm)` when the arm's recorded type is not `double`; the column that is
+filled from an expression is declared with the type recorded for the expression and assigned from
+it. A *carrier* is an expression whose value is one of its constants: a constant, or a
+conditional expression between two carriers (the tests do not matter here). `columnPaths` lists,
+for every constant of the carrier in source order, the C++ types it is converted to on its way
+into the column (one entry per written cast and per variable assigned). -/
+
+/-- the type `visit_Constant` records for a constant that has one -/
+def litTy : PyConst → CTy
+  | .str _ => .string
+  | .int _ => .int
+  | .float _ _ => .double
+  | .bool _ => .bool
+  | .other _ => .string
+
+inductive Carrier where
+  | const (c : PyConst)
+  | ite (body orelse : Carrier)
+  deriving Repr
+
+/-- the type recorded for the carrier's representation: the constant's, `double` for a conditional -/
+def Carrier.ty : Carrier → CTy
+  | .const c => litTy c
+  | .ite _ _ => .double
+
+/-- `set_var(target : t, value : src)`: a written cast when the types differ, then the variable -/
+def setVarSteps (t src : CTy) : List CTy := if src = t then [t] else [t, t]
+
+def Carrier.paths : Carrier → List (PyConst × List CTy)
+  | .const c => [(c, [])]
+  | .ite a b =>
+    (a.paths.map fun p => (p.1, p.2 ++ setVarSteps .double a.ty)) ++
+    (b.paths.map fun p => (p.1, p.2 ++ setVarSteps .double b.ty))
+
+/-- … and finally the column, declared with the carrier's type -/
+def Carrier.columnPaths (k : Carrier) : List (PyConst × List CTy) :=
+  k.paths.map fun p => (p.1, p.2 ++ [k.ty])
+
+def Carrier.consts : Carrier → List PyConst
+  | .const c => [c]
+  | .ite a b => a.consts ++ b.consts
 
 /-! ### lines in which names land -/
 
